@@ -187,15 +187,7 @@ func (in *Interp) call(fd *ast.FuncDecl, recv interface{}, args []interface{}) [
 	if fd.Recv != nil && len(fd.Recv.List) == 1 && len(fd.Recv.List[0].Names) == 1 {
 		fr.vars[info.Defs[fd.Recv.List[0].Names[0]]] = recv
 	}
-	i := 0
-	for _, f := range fd.Type.Params.List {
-		for _, nm := range f.Names {
-			if i < len(args) {
-				fr.vars[info.Defs[nm]] = args[i]
-			}
-			i++
-		}
-	}
+	bindParams(fd.Type, fr, args)
 	if fd.Type.Results != nil {
 		for _, f := range fd.Type.Results.List {
 			for _, nm := range f.Names {
@@ -237,6 +229,18 @@ func zeroOf(t types.Type) interface{} {
 		if b, ok := u.Elem().Underlying().(*types.Basic); ok && b.Kind() == types.Byte {
 			return Bytes{Nil: true}
 		}
+	case *types.Array:
+		if u.Len() > 1<<16 {
+			return Nil{}
+		}
+		if b, ok := u.Elem().Underlying().(*types.Basic); ok && b.Kind() == types.Byte {
+			return Bytes{B: make([]byte, u.Len())}
+		}
+		l := &List{}
+		for i := int64(0); i < u.Len(); i++ {
+			l.Elems = append(l.Elems, zeroOf(u.Elem()))
+		}
+		return l
 	}
 	return Nil{}
 }
@@ -379,7 +383,7 @@ func (in *Interp) stmt(s ast.Stmt, fr *frame) interface{} {
 			if len(x.Lhs) != 1 || len(x.Rhs) != 1 {
 				in.fail(Unsupported, "compound assignment with several operands")
 			}
-			op := map[token.Token]token.Token{token.ADD_ASSIGN: token.ADD, token.SUB_ASSIGN: token.SUB, token.MUL_ASSIGN: token.MUL, token.OR_ASSIGN: token.OR, token.AND_ASSIGN: token.AND}[x.Tok]
+			op := map[token.Token]token.Token{token.ADD_ASSIGN: token.ADD, token.SUB_ASSIGN: token.SUB, token.MUL_ASSIGN: token.MUL, token.OR_ASSIGN: token.OR, token.AND_ASSIGN: token.AND, token.XOR_ASSIGN: token.XOR, token.SHL_ASSIGN: token.SHL, token.SHR_ASSIGN: token.SHR, token.QUO_ASSIGN: token.QUO, token.REM_ASSIGN: token.REM}[x.Tok]
 			if op == 0 {
 				in.fail(Unsupported, "assignment operator %s", x.Tok)
 			}
@@ -500,7 +504,29 @@ func (in *Interp) assign(l ast.Expr, v interface{}, define bool, fr *frame) {
 		}
 		st.Fields[x.Sel.Name] = v
 	case *ast.IndexExpr:
-		in.fail(Unsupported, "assignment to an element")
+		base := in.expr(x.X, fr)
+		idx, ok := in.expr(x.Index, fr).(int64)
+		if !ok {
+			in.fail(Unsupported, "non-integer index")
+		}
+		switch b := base.(type) {
+		case *List:
+			if idx < 0 || int(idx) >= len(b.Elems) {
+				in.fail(Panic, "index %d out of range [0,%d) in %s", idx, len(b.Elems), types.ExprString(x))
+			}
+			b.Elems[idx] = v
+		case Bytes:
+			if idx < 0 || int(idx) >= len(b.B) {
+				in.fail(Panic, "index %d out of range [0,%d) in %s", idx, len(b.B), types.ExprString(x))
+			}
+			n, ok := v.(int64)
+			if !ok {
+				in.fail(Unsupported, "non-integer byte element")
+			}
+			b.B[idx] = byte(n)
+		default:
+			in.fail(Unsupported, "assignment to an element of %T", base)
+		}
 	default:
 		in.fail(Unsupported, "assignment to %T", l)
 	}
@@ -799,6 +825,30 @@ func (in *Interp) expr(e ast.Expr, fr *frame) interface{} {
 		case *types.Array:
 			elemT = u.Elem()
 		}
+		if b, ok := func() (*types.Basic, bool) {
+			if elemT == nil {
+				return nil, false
+			}
+			b, ok := elemT.Underlying().(*types.Basic)
+			return b, ok
+		}(); ok && b.Kind() == types.Byte {
+			n := len(x.Elts)
+			if at, isArr := t.Underlying().(*types.Array); isArr {
+				n = int(at.Len())
+			}
+			out := make([]byte, n)
+			for i, el := range x.Elts {
+				if _, isKV := el.(*ast.KeyValueExpr); isKV {
+					in.fail(Unsupported, "keyed array literal")
+				}
+				v, ok := in.expr(el, fr).(int64)
+				if !ok || i >= n {
+					in.fail(Unsupported, "byte literal element")
+				}
+				out[i] = byte(v)
+			}
+			return Bytes{B: out}
+		}
 		if elemT != nil {
 			l := &List{}
 			for _, el := range x.Elts {
@@ -1025,6 +1075,22 @@ func (in *Interp) callExpr(c *ast.CallExpr, fr *frame) interface{} {
 				in.fail(Unsupported, "len of this operand")
 			case "panic":
 				in.fail(Panic, "explicit panic")
+			case "new":
+				if tv, ok := fr.info.Types[c.Args[0]]; ok && tv.IsType() {
+					if n, ok := tv.Type.(*types.Named); ok {
+						if stt, ok := n.Underlying().(*types.Struct); ok {
+							st := &Struct{Type: n.Obj().Name(), Fields: map[string]interface{}{}}
+							for i := 0; i < stt.NumFields(); i++ {
+								st.Fields[stt.Field(i).Name()] = zeroOf(stt.Field(i).Type())
+							}
+							return st
+						}
+					}
+					if z := zeroOf(tv.Type); z != (Nil{}) {
+						return z
+					}
+				}
+				in.fail(Unsupported, "new of this type")
 			}
 			in.fail(Unsupported, "builtin %s", id.Name)
 		}
@@ -1090,20 +1156,57 @@ func (in *Interp) callLit(fv *Func, args []interface{}) []interface{} {
 	for k, v := range fv.fr.vars {
 		fr.vars[k] = v
 	}
-	i := 0
-	for _, f := range fv.Lit.Type.Params.List {
-		for _, nm := range f.Names {
-			if i < len(args) {
-				fr.vars[fr.info.Defs[nm]] = args[i]
+	bindParams(fv.Lit.Type, fr, args)
+	var named []types.Object
+	if fv.Lit.Type.Results != nil {
+		for _, f := range fv.Lit.Type.Results.List {
+			for _, nm := range f.Names {
+				o := fr.info.Defs[nm]
+				fr.vars[o] = zeroOf(fr.info.TypeOf(f.Type))
+				named = append(named, o)
 			}
-			i++
 		}
 	}
 	sig := in.block(fv.Lit.Body.List, fr)
 	if r, ok := sig.(retSig); ok {
+		if len(r.vals) == 0 && len(named) > 0 {
+			var out []interface{}
+			for _, o := range named {
+				out = append(out, fr.vars[o])
+			}
+			return out
+		}
 		return r.vals
 	}
 	return nil
+}
+
+// bindParams binds arguments to parameters; the arguments beyond the fixed ones of a variadic function become a list.
+func bindParams(ft *ast.FuncType, fr *frame, args []interface{}) {
+	i := 0
+	for _, f := range ft.Params.List {
+		_, variadic := f.Type.(*ast.Ellipsis)
+		for _, nm := range f.Names {
+			switch {
+			case variadic:
+				l := &List{}
+				if i < len(args) {
+					if pre, ok := args[i].(*List); ok && len(args) == i+1 && false {
+						l = pre
+					} else {
+						l.Elems = append(l.Elems, args[i:]...)
+					}
+				}
+				fr.vars[fr.info.Defs[nm]] = l
+				i = len(args)
+			case i < len(args):
+				fr.vars[fr.info.Defs[nm]] = args[i]
+				i++
+			default:
+				i++
+			}
+		}
+	}
 }
 
 func pack(res []interface{}) interface{} {
